@@ -96,7 +96,7 @@ class Env(object):
         def parse_colour(text):
             return text.upper()
 
-        @parse.with_pattern(r" (?:red|green|blue)")
+        @parse.with_pattern(r" red| green| blue")
         def parse_spcolour(text):
             return text.strip().upper()
         self.types = {"Colour": parse_colour, "SpColour": parse_spcolour}
